@@ -123,6 +123,7 @@ func propRegistry() map[string]PropSpec {
 			{Pkg: "cache", Fn: "Harness_C04_cacheable_establishes", Init: initCache, Reach: []string{"C04.cacheable.end"}, EngineOnly: true},
 			{Pkg: "cache", Fn: "Harness_C04_get_step", Init: initCache, Reach: []string{"C04.get.hit", "C04.get.expired"}, EngineOnly: true},
 			{Pkg: "cache", Fn: "Harness_C04_age", Init: initCache, Reach: []string{"C04.age.end"}},
+			{Pkg: "server", Fn: "Harness_MW_cache", Init: []string{"util", "store", "compress", "cache", "location", "upstream", "server"}, Reach: []string{"MW.second.hit"}},
 			{Pkg: "cache", Fn: "Harness_C08_cacheable_restart", Init: initCache, Reach: []string{"C08.restart.expired", "C08.restart.restored"}},
 		},
 		Explanation: "One-step inductive check on the cache entry: for an arbitrary stored entry satisfying the invariant (status hit => expiredAt = createdAt + T) and an arbitrary later clock value (64-bit, free non-decreasing clock stub replacing cache.nowUnix), one Get() either serves the stored response within the lifetime or turns the entry to fetching; Cacheable re-establishes the invariant from any state. Real SSA of (*httpCache).Get/get/Cacheable/Age.",
